@@ -241,6 +241,64 @@ def run(ctx):
                        "verdict": {"verdict": v, "pos": pos, "clause": clause}, "tlc_cfg": "FormulaTrace.cfg"})
     if traces:
         ctx.sample({"trace": traces[0]}, cap=8)
+    _suite_stage(ctx)
+
+
+def _suite_stage(ctx):
+    """Renderings the repository's own tests ask for, judged against the spec's tokens."""
+    import suite
+    import c01
+    from chempy.util.parsing import formula_to_composition
+    fns = {"chempy.util.parsing:formula_to_latex": "latex", "chempy.util.parsing:formula_to_unicode": "unicode",
+           "chempy.util.parsing:formula_to_html": "html"}
+    recs, summ = suite.record_suite(c01.SUITE_TESTS, list(fns))
+    ctx.notes.append({"suite": summ})
+    by = {}
+    for r in recs:
+        fmt = fns.get(r.get("fn"))
+        a = r.get("args")
+        if not fmt or r.get("not_observed") or not r.get("ok"):
+            continue
+        if not (isinstance(a, list) and len(a) == 1 and isinstance(a[0], str)) or r.get("kwargs", {}).get("dict"):
+            ctx.skip("suite-call-with-options")
+            continue
+        by.setdefault(a[0], {})[fmt] = r["result"]
+    from chempy.util.periodic import symbols
+    traces, meta = [], []
+    for text, outs in sorted(by.items()):
+        toks = fc.lex(text, symbols)
+        if toks is None:
+            ctx.skip("suite-string-outside-modelled-notation")
+            continue
+        o = fc.observe(formula_to_composition, text)
+        if o["raised"] or "unencodable" in o:
+            ctx.skip("suite-formula-not-parsed")
+            continue
+        shown = []
+        for fmt, s in sorted(outs.items()):
+            tk = fc.unpresent(s, fmt) if isinstance(s, str) else None
+            shown.append([{"r": a, "t": b} for a, b in (tk if tk is not None else [["Unlexable", str(s)]])])
+        ev = {"k": "result", "txt": text.replace(fc.MIDDOT, "~"), "raised": False, "comp": o["comp"], "q": o["q"],
+              "shown": shown, "mass9": []}
+        traces.append(toks + [ev])
+        meta.append((text, outs))
+    if not traces:
+        return
+    verdicts = ctx.validate_traces("FormulaTrace", "FormulaTrace.cfg", traces)
+    for tr, (text, outs), (v, pos, clause) in zip(traces, meta, verdicts):
+        if v == "accept":
+            ctx.ran("suite:" + text, nontrivial=len(tr) > 3)
+            ctx.counters["suite_calls_judged"] += len(outs)
+            continue
+        if clause != "render":
+            ctx.skip("suite-string-outside-modelled-notation" if clause in ("text", "notdone") or clause.startswith("step:")
+                     else "rejected-for-C01-clause-" + clause)
+            ctx.traces_validated -= 1
+            continue
+        ctx.violation({"fn": "formula_to_<format>", "txt": text, "clause": clause, "source": "repo-suite"},
+                      {"direction": "code->spec", "kind": "formula", "trace": tr, "observed": outs,
+                       "verdict": {"verdict": v, "pos": pos, "clause": clause}, "tlc_cfg": "FormulaTrace.cfg"})
+    ctx.sample({"suite_trace": traces[0]}, cap=8)
 
 
 def replay(ctx, rec):
